@@ -140,12 +140,13 @@ theorem setHealth_stale (f : Faults) (st : RevSt) (h : Health) (hs : f.stale = t
 /-- what must hold for the gates to let a package through to `Establish` -/
 theorem gates_est (r : Rev) (f : Faults) (st : RevSt) (p : Pkg) (objs : List Obj)
     (h : (gates r f st p).2.est = some objs) :
-    objs = p.objs ∧ lint r.ptype p = true ∧ (r.ignore = true ∨ compatible p = true) ∧ f.updO = .ok := by
+    objs = p.objs ∧ lintS r.ptype p = true ∧ (r.ignore = true ∨ compatible p = true) ∧ f.updO = .ok ∧
+      (r.resolve = true → f.dep = .ok) := by
   unfold gates at h
   split at h
   · cases h
   · rename_i hl
-    have hl' : lint r.ptype p = true := by simpa using hl
+    have hl' : lintS r.ptype p = true := by simpa using hl
     split at h
     · cases h
     · split at h
@@ -158,8 +159,14 @@ theorem gates_est (r : Rev) (f : Faults) (st : RevSt) (p : Pkg) (objs : List Obj
           have hc' : r.ignore = true ∨ compatible p = true := by
             cases hi : r.ignore <;> cases hcp : compatible p <;> simp_all
           split at h
-          · split at h <;> (simp only [Option.some.injEq] at h; exact ⟨h.symm, hl', hc', hu⟩)
-          · split at h <;> (simp only [Option.some.injEq] at h; exact ⟨h.symm, hl', hc', hu⟩)
+          · split at h <;> cases h
+          · rename_i hdep
+            have hd' : r.resolve = true → f.dep = .ok := by
+              intro hr
+              cases hdd : f.dep <;> simp [hr, hdd] at hdep ⊢
+            split at h
+            · split at h <;> (simp only [Option.some.injEq] at h; exact ⟨h.symm, hl', hc', hu, hd'⟩)
+            · split at h <;> (simp only [Option.some.injEq] at h; exact ⟨h.symm, hl', hc', hu, hd'⟩)
 
 theorem install_cache (fixed : Bool) (r : Rev) (f : Faults) (c : Cache) (st : RevSt) :
     (install fixed r f c st).1 = (fetch fixed r f c).1 := by
@@ -203,8 +210,9 @@ theorem recStep_cache (feature : Bool) (r : Rev) (f : Faults) (c : Cache) (st : 
 theorem recStep_est (feature : Bool) (r : Rev) (f : Faults) (c : Cache) (st : RevSt) (objs : List Obj)
     (h : (recStep true feature r f c st).2.2.est = some objs) :
     st.present = true ∧ st.deleting = false ∧ (feature = true → st.verif.isTrue = true) ∧
-    ∃ p, (fetch true r f c).2 = .parsed (some p) ∧ objs = p.objs ∧ lint r.ptype p = true ∧
-      (r.ignore = true ∨ compatible p = true) ∧ f.upd = .ok ∧ f.stale = false ∧ f.getE = .ok := by
+    ∃ p, (fetch true r f c).2 = .parsed (some p) ∧ objs = p.objs ∧ lintS r.ptype p = true ∧
+      (r.ignore = true ∨ compatible p = true) ∧ f.upd = .ok ∧ f.stale = false ∧ f.getE = .ok ∧
+      early f st = none ∧ (r.resolve = true → f.dep = .ok) := by
   unfold recStep at h
   split at h
   · cases h
@@ -227,18 +235,21 @@ theorem recStep_est (feature : Bool) (r : Rev) (f : Faults) (c : Cache) (st : Re
           · cases h
           · cases h
           · split at h
-            · split at h <;> cases h
-            · obtain ⟨p, hf, hg2⟩ := install_est _ _ _ _ _ _ h
-              obtain ⟨ho, hl, hc, hu⟩ := gates_est _ _ _ _ _ hg2
-              obtain ⟨hs, hu'⟩ := updO_ok f hu
-              have hp' : st.present = true ∧ f.getE ≠ .miss := by
-                simp only [Bool.or_eq_true, Bool.not_eq_true', beq_iff_eq, not_or] at hp
-                exact ⟨by simpa using hp.1, hp.2⟩
-              have hge : f.getE = .ok := by
-                have h2 : f.getE ≠ .err := by simpa using hg
-                cases hgg : f.getE <;> simp_all
-              refine ⟨hp'.1, by simpa using hd, ?_, p, hf, ho, hl, hc, hu', hs, hge⟩
-              intro hf'; subst hf'; simpa using hv
+            · cases h
+            · rename_i hearly
+              split at h
+              · split at h <;> cases h
+              · obtain ⟨p, hf, hg2⟩ := install_est _ _ _ _ _ _ h
+                obtain ⟨ho, hl, hc, hu, hdep⟩ := gates_est _ _ _ _ _ hg2
+                obtain ⟨hs, hu'⟩ := updO_ok f hu
+                have hp' : st.present = true ∧ f.getE ≠ .miss := by
+                  simp only [Bool.or_eq_true, Bool.not_eq_true', beq_iff_eq, not_or] at hp
+                  exact ⟨by simpa using hp.1, hp.2⟩
+                have hge : f.getE = .ok := by
+                  have h2 : f.getE ≠ .err := by simpa using hg
+                  cases hgg : f.getE <;> simp_all
+                refine ⟨hp'.1, by simpa using hd, ?_, p, hf, ho, hl, hc, hu', hs, hge, hearly, hdep⟩
+                intro hf'; subst hf'; simpa using hv
 
 theorem envStep_verif (a d : Bool) (st : RevSt) : (envStep a d st).verif = st.verif := by
   unfold envStep
@@ -264,7 +275,7 @@ theorem recStep_verif (fixed feature : Bool) (r : Rev) (f : Faults) (c : Cache) 
     (recStep fixed feature r f c st).2.1.verif = st.verif := by
   unfold recStep
   repeat' split
-  all_goals first | rfl | exact install_verif _ _ _ _ _
+  all_goals first | rfl | exact install_verif _ _ _ _ _ | exact setHealth_verif _ _ _
 
 /-- a third party never sets Verified to True (only the signature controller does) -/
 theorem applyEnv_verif (e : Env) (st : RevSt) (h : (applyEnv e st).verif.isTrue = true) : st.verif.isTrue = true := by
@@ -328,8 +339,13 @@ theorem recStep_stale (fixed feature : Bool) (r : Rev) (f : Faults) (c : Cache) 
           · have hst' : ({ st with finalizer := true } : RevSt) = st := by cases st; simp_all
             simp only [if_true]
             split
-            · exact ⟨hst', rfl⟩
-            · rw [hst']; exact install_stale _ _ _ _ _ hs
+            · refine ⟨?_, rfl⟩
+              split
+              · rw [hst']; exact setHealth_stale _ _ _ hs
+              · exact hst'
+            · split
+              · exact ⟨hst', rfl⟩
+              · rw [hst']; exact install_stale _ _ _ _ _ hs
 
 /-! ### health and object references -/
 
@@ -339,6 +355,13 @@ theorem setHealth_healthy (f : Faults) (st : RevSt) (h : (setHealth f st .unheal
   split at h
   · exact h
   · cases h
+
+theorem setHealth_healthy' (f : Faults) (st : RevSt) (x : Health) (hx : x ≠ .healthy)
+    (h : (setHealth f st x).health = .healthy) : st.health = .healthy := by
+  unfold setHealth at h
+  split at h
+  · exact h
+  · exact absurd h hx
 
 theorem setHealth_refs (f : Faults) (st : RevSt) (x : Health) : (setHealth f st x).refs = st.refs := by
   unfold setHealth; split <;> rfl
@@ -363,13 +386,17 @@ theorem gates_health (r : Rev) (f : Faults) (st : RevSt) (p : Pkg)
         · split at hres
           · split at hres
             · subst hres; exact Or.inl h
-            · subst hres; exact Or.inl (setHealth_healthy _ _ h)
-          · rename_i hne
-            split at hres
-            · subst hres; exact Or.inl h
-            · rename_i hns
-              subst hres
-              exact Or.inr ⟨rfl, by simpa using hne, by simpa using hns⟩
+            · subst hres; exact Or.inl (setHealth_healthy' _ _ _ (by decide) h)
+          · split at hres
+            · split at hres
+              · subst hres; exact Or.inl h
+              · subst hres; exact Or.inl (setHealth_healthy _ _ h)
+            · rename_i hne
+              split at hres
+              · subst hres; exact Or.inl h
+              · rename_i hns
+                subst hres
+                exact Or.inr ⟨rfl, by simpa using hne, by simpa using hns⟩
 
 /-- the gates change the object references only together with making the revision Healthy -/
 theorem gates_refs (r : Rev) (f : Faults) (st : RevSt) (p : Pkg) :
@@ -389,12 +416,16 @@ theorem gates_refs (r : Rev) (f : Faults) (st : RevSt) (p : Pkg) :
           · split at hres
             · subst hres; exact Or.inl rfl
             · subst hres; exact Or.inl (setHealth_refs _ _ _)
-          · rename_i hne
-            split at hres
-            · subst hres; exact Or.inl rfl
-            · rename_i hns
-              subst hres
-              exact Or.inr ⟨rfl, by simpa using hne, by simpa using hns⟩
+          · split at hres
+            · split at hres
+              · subst hres; exact Or.inl rfl
+              · subst hres; exact Or.inl (setHealth_refs _ _ _)
+            · rename_i hne
+              split at hres
+              · subst hres; exact Or.inl rfl
+              · rename_i hns
+                subst hres
+                exact Or.inr ⟨rfl, by simpa using hne, by simpa using hns⟩
 
 theorem install_health (fixed : Bool) (r : Rev) (f : Faults) (c : Cache) (st : RevSt)
     (h : (install fixed r f c st).2.1.health = .healthy) :
@@ -452,18 +483,25 @@ theorem recStep_health (fixed feature : Bool) (r : Rev) (f : Faults) (c : Cache)
           · subst hres; exact Or.inl h
           · subst hres; exact Or.inl h
           · split at hres
-            · rename_i hsc
-              split at hres
-              · subst hres; exact Or.inl h
-              · rename_i hns
-                subst hres
-                right; left
-                simp only [Bool.and_eq_true, Bool.not_eq_true', decide_eq_true_eq] at hsc
-                exact ⟨hsc.1, hsc.2, by simpa using hns⟩
             · subst hres
-              rcases install_health _ _ _ _ _ h with h1 | h1
-              · exact Or.inl h1
-              · exact Or.inr (Or.inr h1)
+              left
+              simp only [] at h
+              split at h
+              · exact setHealth_healthy _ { st with finalizer := true } h
+              · exact h
+            · split at hres
+              · rename_i hsc
+                split at hres
+                · subst hres; exact Or.inl h
+                · rename_i hns
+                  subst hres
+                  right; left
+                  simp only [Bool.and_eq_true, Bool.not_eq_true', decide_eq_true_eq] at hsc
+                  exact ⟨hsc.1, hsc.2, by simpa using hns⟩
+              · subst hres
+                rcases install_health _ _ _ _ _ h with h1 | h1
+                · exact Or.inl h1
+                · exact Or.inr (Or.inr h1)
 
 /-- How a reconcile can change the object references of a revision. -/
 theorem recStep_refs (fixed feature : Bool) (r : Rev) (f : Faults) (c : Cache) (st : RevSt) :
@@ -488,9 +526,16 @@ theorem recStep_refs (fixed feature : Bool) (r : Rev) (f : Faults) (c : Cache) (
           · subst hres; exact Or.inl rfl
           · subst hres; exact Or.inl rfl
           · split at hres
-            · split at hres <;> (subst hres; exact Or.inl rfl)
             · subst hres
-              exact install_refs fixed r f c { st with finalizer := true }
+              left
+              simp only []
+              split
+              · exact setHealth_refs _ _ _
+              · rfl
+            · split at hres
+              · split at hres <;> (subst hres; exact Or.inl rfl)
+              · subst hres
+                exact install_refs fixed r f c { st with finalizer := true }
 
 /-! ### locality (reconciles of revisions with different cache paths do not interfere) -/
 
